@@ -6,6 +6,7 @@
 -/
 import GojaModel.C05.Lemmas
 import GojaModel.C05.ParseInt
+import GojaModel.C05.StrAgree
 import GojaModel.Generated.C05_Decisions
 namespace GojaModel.C05.DecTie
 open GojaModel GojaModel.Num GojaModel.C05 GojaModel.C05.Gen
@@ -340,6 +341,72 @@ theorem normKey_tie (k : Num) :
   cases k with
   | int i => simp [normKey, Generated.C05_Decisions.lookupNormGuard, valueEqFloat]
   | flt f => simp only [normKey, Generated.C05_Decisions.lookupNormGuard, valueEqFloat, feq_negZero]
+
+
+/-! ### string → number helpers (string_ascii.go) -/
+
+/-- **translated `radixPrefix` = model** -/
+theorem radixPrefix_tie (ss : List Nat) : Generated.C05_Decisions.radixPrefix ss = (StrNum.radixPrefix ss : Int) := by
+  unfold Generated.C05_Decisions.radixPrefix
+  match ss with
+  | [] => simp [StrNum.radixPrefix]
+  | [a] => simp [StrNum.radixPrefix]
+  | [a, b] => simp [StrNum.radixPrefix]
+  | a :: p :: c :: rest =>
+    have hl : ((a :: p :: c :: rest).length : Int) > 2 := by simp; omega
+    simp only [hl, decide_true, Bool.true_and, List.getD_cons_zero, List.getD_cons_succ]
+    by_cases ha : a = 0x30
+    · subst ha
+      simp only [decide_true, if_true, StrNum.radixPrefix, StrNum.radixOfLetter, Bool.or_eq_true, decide_eq_true_eq]
+      by_cases h1 : p = 0x78 ∨ p = 0x58
+      · simp [h1]
+      · by_cases h2 : p = 0x6F ∨ p = 0x4F
+        · simp [h1, h2]
+        · by_cases h3 : p = 0x62 ∨ p = 0x42 <;> simp [h1, h2, h3]
+    · have : StrNum.radixPrefix (a :: p :: c :: rest) = 0 := by
+        unfold StrNum.radixPrefix
+        split
+        · rename_i heq; injection heq with h _; exact absurd h ha
+        · rfl
+      simp [ha, this]
+
+
+/-- **translated `stringToInt` = model**, on the non-empty trimmed strings it is called with in `mechT` -/
+theorem stringToInt_tie {ss : List Nat} (hne : ss ≠ []) :
+    Generated.C05_Decisions.stringToInt ss = StrNum.stringToInt ss := by
+  cases ss with
+  | nil => exact absurd rfl hne
+  | cons a as =>
+  have hcons : decide (a :: as = ([] : List Nat)) = false := by simp
+  by_cases hrp : StrNum.radixPrefix (a :: as) = 0
+  · have hb : decide ((Generated.C05_Decisions.radixPrefix (a :: as)) ≠ 0) = false := by
+      rw [radixPrefix_tie, hrp]; decide
+    unfold Generated.C05_Decisions.stringToInt
+    simp only [hcons, hb, Bool.false_eq_true, if_false, StrNum.stringToInt, hrp, ne_eq, not_true_eq_false]
+    have h10 : ((10 : Int)).toNat = 10 := rfl
+    rw [h10]
+    cases hg : StrNum.goParseInt (a :: as) 10 with
+    | none => simp
+    | some i =>
+      simp only [List.getD_cons_zero, List.head?_cons, Option.some.injEq, Bool.true_and]
+      by_cases hc : i = 0 ∧ a = 0x2D
+      · simp [hc.1, hc.2]
+      · by_cases hi : i = 0
+        · have ha : ¬ a = 0x2D := fun h => hc ⟨hi, h⟩
+          simp [hi, ha]
+        · simp [hi]
+  · obtain ⟨p, c, rest, ht, hp⟩ := StrNum.radixPrefix_shape hrp
+    injection ht with h1 h2
+    subst h1; subst h2
+    have hrp' : StrNum.radixPrefix (0x30 :: p :: c :: rest) = StrNum.radixOfLetter p := rfl
+    have hb : decide ((Generated.C05_Decisions.radixPrefix (0x30 :: p :: c :: rest)) ≠ 0) = true := by
+      rw [radixPrefix_tie, hrp']; simp; omega
+    unfold Generated.C05_Decisions.stringToInt
+    simp only [hcons, hb, Bool.false_eq_true, if_false, if_true, radixPrefix_tie, hrp', Int.toNat_natCast]
+    simp only [StrNum.stringToInt, hrp', hp, ne_eq, not_false_eq_true, if_true, List.getD_cons_succ, List.getD_cons_zero,
+      List.drop, Bool.or_eq_true, decide_eq_true_eq]
+    have : ¬ ((StrNum.radixOfLetter p : Int) = 0) := by omega
+    rw [if_pos this]
 
 
 /-- the cache read by `intToValue` holds `valueInt(i - 256)` at index `i` (what the translation of `intCache[idx]` assumes) -/
